@@ -367,6 +367,7 @@ def run(tier: str, only=None) -> core.Result:
             continue
         out = explorer.explore(RUN, cfgs, fidelity=True)
         sched.absorb(res, name, RUN, out, cfgs)
+        sched.debug_pass(res, name, RUN, cfgs, every=(97 if len(cfgs) > 5000 else 11))
     rcfgs = [{"tail": t, "end": e, "cut": c, "legacy": lg} for t in TAILS for e in ("clean", "child-dies") for c in (None, 7)
              for lg in (None, "open", "closed")]
     out = explorer.explore(RUN_RE, rcfgs, fidelity=True)
